@@ -124,6 +124,9 @@ def ids_for(rng, kind, n):
         return [i * 3 - 2 for i in range(n)]
     if kind == "str":
         return ["n%d" % i for i in range(n)]
+    if kind == "magic":
+        # ids whose first bytes look like the signature of a compressed file when they open the file
+        return ["BZhang", "BZh91AY", "PK"][:n] + ["m%d" % i for i in range(max(0, n - 3))]
     if kind == "numstr":
         # strings that look like numbers (read with nodetype=str right after int ids were read with nodetype=int)
         return ["%d" % (i * 3 - 2) for i in range(n)]
